@@ -1,117 +1,445 @@
-"""GraphColoring: correspondence with coq/Model/GraphColoring.v + verified checkers on implementation states."""
+"""GraphColoring: correspondence with coq/Model/GraphColoring.v + verified checkers on implementation states.
+
+Every number here is an integer (colours, node index, booleans; the reward is an integral float), so everything is compared
+exactly.  Three kinds of inputs:
+ - real rollouts (mask-respecting, 35 % uniform, fully uniform) of every catalogued / extra configuration, up to and INCLUDING
+   the terminal state; every executed transition is replayed in the extracted model (`gc_step_io`), in the declarative rules
+   (`gc_rules_io`) and in the observation builder (`gc_obs_io`);
+ - a sweep: from visited states (reset, intermediate, terminal = stepping on after LAST) EVERY colour is tried on the real
+   `env.step` (jit + vmap over the action space): the mask is judged by the environment's own reaction and by an independent
+   Python statement of the rule (C04), every illegal colour is exercised (C05: LAST, reward -n, discount 0, and the colour IS
+   written - the terminal colouring is improper, as the theorem C05_GraphColoring_invalid_colour_is_written says);
+ - directly built graphs (complete, empty, path, star; n = 1..5): complete graphs make a legal completion cost -n, the same
+   number as the invalid-colour penalty (the one case where the reward alone does not tell the two apart).
+Verified boolean checkers evaluated on the implementation's own states: mask = legal set, proper colouring, symmetric loop-free
+graph (`gc_check_io`), inside the declared spec / colours in use / complete (`gc_spec_io`), protocol (`proto_check_io`).
+"""
 import numpy as np
 
 from harness import envkit
 
 NAME = "graph_coloring"
-PROPS = ["C04", "C05", "C06", "C08", "C09", "C10", "C12"]
+PROPS = ["C01", "C03", "C04", "C05", "C06", "C08", "C09", "C10", "C11", "C12"]
 APPLIES = PROPS
 
 
+def extra_configs(tier, add):
+    from jumanji.environments import GraphColoring
+    from jumanji.environments.logic.graph_coloring.generator import RandomGenerator as G
+    add("n1p5", lambda: GraphColoring(G(num_nodes=1, edge_probability=0.5)), 3)
+    add("n2p7", lambda: GraphColoring(G(num_nodes=2, edge_probability=0.7)), 4)
+    add("n5p99", lambda: GraphColoring(G(num_nodes=5, edge_probability=0.99)), 7)     # (almost) complete: n colours needed
+    add("n7p05", lambda: GraphColoring(G(num_nodes=7, edge_probability=0.05)), 9)     # (almost) edge-free: masks all True
+    if tier != "quick":
+        add("n30p5", lambda: GraphColoring(G(num_nodes=30, edge_probability=0.5)), 33)
+        add("n9p6", lambda: GraphColoring(G(num_nodes=9, edge_probability=0.6)), 12)
+
+
+def bl(x):
+    return [int(v) for v in np.asarray(x).reshape(-1)]
+
+
 def enc_state(n, s):
-    return ([int(x) for x in np.asarray(s.adj_matrix).reshape(-1)] + [int(x) for x in np.asarray(s.colors)]
-            + [int(s.current_node_index)] + [int(x) for x in np.asarray(s.action_mask)])
+    return bl(s.adj_matrix) + bl(s.colors) + [int(s.current_node_index)] + bl(s.action_mask)
+
+
+def rew(ts):
+    r = float(ts.reward)
+    if r != round(r):
+        raise ValueError("non-integral reward %r" % r)
+    return int(round(r))
 
 
 def enc_out(s2, ts):
-    return ([int(x) for x in np.asarray(s2.colors)] + [int(s2.current_node_index)] + [int(x) for x in np.asarray(s2.action_mask)]
-            + [int(ts.step_type), int(round(float(ts.reward))), int(round(float(ts.discount)))])
+    return bl(s2.colors) + [int(s2.current_node_index)] + bl(s2.action_mask) + [int(ts.step_type), rew(ts), int(round(float(ts.discount)))]
+
+
+def enc_obs(o):
+    return bl(o.adj_matrix) + bl(o.colors) + [int(o.current_node_index)] + bl(o.action_mask)
+
+
+def _stepper(env, _cache={}):
+    import jax
+    if id(env) not in _cache:
+        _cache[id(env)] = (jax.jit(jax.vmap(env.step)), env)
+    return _cache[id(env)][0]
+
+
+def step_many(env, items):
+    """the REAL env.step (jit+vmap) on given (state, action) pairs -> list of (state', timestep) numpy slices"""
+    import jax
+    import jax.numpy as jnp
+    from jumanji.environments.logic.graph_coloring.types import State
+    out = []
+    CH = 1024
+    for i in range(0, len(items), CH):
+        ch = items[i:i + CH]
+        size = 64 if len(ch) <= 64 else CH                       # two batch sizes -> at most two compilations per env
+        pad = ch + [ch[-1]] * (size - len(ch))
+        S = State(adj_matrix=jnp.asarray(np.stack([np.asarray(s.adj_matrix, bool) for s, _ in pad])),
+                  colors=jnp.asarray(np.stack([np.asarray(s.colors, np.int32) for s, _ in pad])),
+                  current_node_index=jnp.asarray(np.asarray([int(s.current_node_index) for s, _ in pad], np.int32)),
+                  action_mask=jnp.asarray(np.stack([np.asarray(s.action_mask, bool) for s, _ in pad])),
+                  key=jnp.zeros((len(pad), 2), jnp.uint32))
+        A = jnp.asarray(np.asarray([a for _, a in pad], np.int32))
+        s2, ts = _stepper(env)(S, A)
+        s2, ts = jax.tree_util.tree_map(np.asarray, (s2, ts.replace(extras={})))
+        for j in range(len(ch)):
+            out.append((envkit.R.slice_tree(s2, j), envkit.R.slice_tree(ts, j)))
+    return out
+
+
+class NS:
+    """a plain numpy state (for directly built graphs)"""
+    def __init__(self, adj, colors, cur, mask):
+        self.adj_matrix, self.colors, self.current_node_index, self.action_mask = (np.asarray(adj, bool), np.asarray(colors, np.int32),
+                                                                                   int(cur), np.asarray(mask, bool))
+
+
+def py_legal(s, a):
+    """the rule, stated independently in Python: no neighbour of the current node already has colour a"""
+    adj, col = np.asarray(s.adj_matrix), np.asarray(s.colors)
+    return not bool(np.any(adj[_row(s)] & (col == a)))
+
+
+def _row(s):
+    """row index the way a JAX gather reads it (an out-of-spec node index must be reported, not crash the harness)"""
+    n, i = len(np.asarray(s.colors)), int(s.current_node_index)
+    return min(max(i + n if i < 0 else i, 0), n - 1)
 
 
 def analyze(kit):
     import jax
+    from jax import numpy as jnp
+    from jumanji.environments import GraphColoring
+    from jumanji.environments.logic.graph_coloring.generator import RandomGenerator
+    quick = kit.tier == "quick"
+    res = kit.res
     calls, metas = [], []
+
+    def layout(n):
+        return [("colors", n), ("current_node_index", 1), ("action_mask", n), ("step_type", 1), ("reward", 1), ("discount", 1)]
+
+    def obs_layout(n):
+        return [("adj_matrix", n * n), ("colors", n), ("current_node_index", 1), ("action_mask", n)]
+
+    def sdict(s):
+        return dict(colors=bl(s.colors), node=int(s.current_node_index), mask=bl(s.action_mask),
+                    adj_row=bl(np.asarray(s.adj_matrix)[_row(s)]))
+
+    def submit_step(n, s, a, s2, ts2, m):
+        """one (state, action) with the implementation's answer: code model, rules, observation builder, protocol, spec"""
+        e = [n] + enc_state(n, s)
+        m = dict(m, n=n, action=int(a), legal=py_legal(s, int(a)), masked_in=bool(np.asarray(s.action_mask)[int(a)]), state=sdict(s))
+        exp = enc_out(s2, ts2)
+        extra = (s, s2, ts2)
+        calls.append(("gc_step_io", e + [int(a)])); metas.append(("step", dict(m, via="code"), exp, extra))
+        calls.append(("gc_rules_io", e + [int(a)])); metas.append(("step", dict(m, via="rules"), exp, None))
+        calls.append(("gc_obs_io", e + [int(a)])); metas.append(("obs", m, enc_obs(ts2.observation), None))
+        calls.append(("proto_check_io", [1, 0, 0, int(ts2.step_type), rew(ts2), int(round(float(ts2.discount)))]))
+        metas.append(("proto", dict(m, first=False), [1], None))
+        calls.append(("gc_spec_io", [n] + enc_state(n, s2))); metas.append(("spec", dict(m, of="successor"), None, (s2, None)))
+
+    def submit_check(n, s, m, legal_so_far, fresh=False):
+        calls.append(("gc_check_io", [n] + enc_state(n, s)))
+        metas.append(("check", dict(m, n=n, legal_so_far=legal_so_far, fresh=fresh, state=sdict(s)), [1, 1, 1], None))
+
+    def sweep(env, n, states, label, src):
+        """EVERY colour from the given states on the real env"""
+        items = [(s, a) for (s, m) in states for a in range(n)]
+        ms = [dict(m, cfg=label, src=src, origin=m["src"]) for (s, m) in states for a in range(n)]
+        if not items:
+            return
+        for (s, a), (s2, ts2), m in zip(items, step_many(env, items), ms):
+            submit_step(n, s, a, s2, ts2, m)
+
+    # ------------------------------------------------------------------ real rollouts
     for cfg in kit.configs():
         env = kit.env(cfg)
         n = env.num_nodes
-        layout = [("colors", n), ("current_node_index", 1), ("action_mask", n), ("step_type", 1), ("reward", 1), ("discount", 1)]
-        for p in (0.0, 0.35):
+        label = cfg["label"]
+        visited = []
+        for p in (0.0, 0.35, 1.0):
             roll = kit.roll(cfg, p)
             _, st, ts, ac, fl, k0 = roll
-            for b in range(ac.shape[0]):
+            B, T = ac.shape
+            for b in range(B):
+                end = min(T, fl[b])
                 s0 = envkit.R.slice_tree(st, b, 0)
                 ts0 = envkit.R.slice_tree(ts, b, 0)
-                # reset state from the generated instance
-                calls.append(("gc_init_io", [n] + [int(x) for x in np.asarray(s0.adj_matrix).reshape(-1)]))
-                metas.append(("init", layout, enc_out(s0, ts0), dict(cfg=cfg["label"], p=p, b=b, t=0)))
-                ret = 0.0
-                for t in range(min(ac.shape[1], fl[b])):
-                    ret += float(ts.reward[b, t + 1])
-                ncol = len(set(int(c) for c in np.asarray(st.colors[b, min(fl[b], ac.shape[1])]) if c >= 0))
-                done_by_completion = fl[b] <= ac.shape[1] and (np.asarray(st.colors[b, fl[b]]) >= 0).all() and p == 0.0
-                if done_by_completion:  # C08: return == -(colours used), recomputed from the final state
-                    kit.res["C08"].evaluations += 1
-                    kit.res["C08"].distinct.add((cfg["label"], b))
-                    if ret != -ncol:
-                        kit.fail(["C08"], "return != -(number of colours used)", dict(cfg=cfg["label"], op="objective"),
-                                 dict(ret=ret, colours=ncol, b=b, seed=kit.seed))
-            for (b, t, s, a, s2, ts2) in kit.transitions(roll):
-                e = [n] + enc_state(n, s)
-                legal = bool(np.asarray(s.action_mask)[int(a)])
-                calls.append(("gc_step_io", e + [int(a)]))
-                metas.append(("step", layout, enc_out(s2, ts2), dict(cfg=cfg["label"], p=p, b=b, t=t, action=int(a), legal=legal,
-                                                                  state=dict(colors=np.asarray(s.colors).tolist(), node=int(s.current_node_index)))))
-                calls.append(("gc_check_io", e))
-                metas.append(("check", None, [1, 1, 1], dict(cfg=cfg["label"], p=p, b=b, t=t, legal_so_far=(p == 0.0),
-                                                            state=dict(colors=np.asarray(s.colors).tolist(), node=int(s.current_node_index),
-                                                                       mask=np.asarray(s.action_mask).astype(int).tolist(),
-                                                                       adj_row=np.asarray(s.adj_matrix)[int(s.current_node_index)].astype(int).tolist()))))
-                # C12: observation fields are copies of the state
-                kit.res["C12"].evaluations += 1
-                o = ts2.observation
-                if not (np.array_equal(o.colors, s2.colors) and np.array_equal(o.action_mask, s2.action_mask)
-                        and np.array_equal(o.adj_matrix, s2.adj_matrix) and int(o.current_node_index) == int(s2.current_node_index)):
-                    kit.fail(["C12"], "observation differs from the state it views", dict(cfg=cfg["label"], op="obs-copy"), dict(b=b, t=t, seed=kit.seed))
-                kit.res["C12"].distinct.add((cfg["label"], b, t))
-        # generator on explicit draw matrices (C10): model gen = tril(k=-1)+transpose of the same draws
-        from jax import numpy as jnp
+                m0 = dict(cfg=label, src="reset", p=p, b=b, t=0)
+                # reset: state = init(generated graph), FIRST / reward 0 / discount 1, observation = view, inside the spec
+                calls.append(("gc_init_io", [n] + bl(s0.adj_matrix))); metas.append(("init", dict(m0, n=n), enc_out(s0, ts0), None))
+                calls.append(("proto_check_io", [1, 1, 0, int(ts0.step_type), rew(ts0), int(round(float(ts0.discount)))]))
+                metas.append(("proto", dict(m0, first=True), [1], None))
+                calls.append(("gc_spec_io", [n] + enc_state(n, s0))); metas.append(("spec", dict(m0, of="reset", n=n), None, (s0, None)))
+                res["C12"].evaluations += 1
+                if enc_obs(ts0.observation) != enc_state(n, s0):
+                    kit.fail(["C12"], "reset observation differs from the reset state", dict(cfg=label, op="obs-copy-reset"), dict(b=b, p=p, seed=kit.seed))
+                all_legal = True
+                ret = 0
+                for t in range(end):
+                    s = envkit.R.slice_tree(st, b, t)
+                    s2 = envkit.R.slice_tree(st, b, t + 1)
+                    ts2 = envkit.R.slice_tree(ts, b, t + 1)
+                    a = int(ac[b, t])
+                    m = dict(cfg=label, src="rollout", p=p, b=b, t=t)
+                    submit_step(n, s, a, s2, ts2, m)
+                    submit_check(n, s, m, legal_so_far=all_legal)
+                    visited.append((s, m))
+                    all_legal = all_legal and py_legal(s, a)
+                    ret += rew(ts2)
+                    if not np.array_equal(s2.adj_matrix, s.adj_matrix):
+                        kit.fail(["C09", "C05"], "step changed the graph", dict(cfg=label, op="instance-const"), dict(b=b, t=t, p=p, seed=kit.seed))
+                if fl[b] <= T:          # the episode ended inside the rollout: terminal state
+                    sf = envkit.R.slice_tree(st, b, end)
+                    mf = dict(cfg=label, src="terminal", p=p, b=b, t=int(end))
+                    submit_check(n, sf, mf, legal_so_far=all_legal)
+                    visited.append((sf, mf))
+                    complete = bool((np.asarray(sf.colors) >= 0).all())
+                    calls.append(("gc_spec_io", [n] + enc_state(n, sf)))
+                    metas.append(("spec", dict(mf, of="final", n=n, ret=ret, all_legal=all_legal, complete=complete, steps=int(end)), None, (sf, None)))
+                    # C11: exactly n under mask-respecting play, at most n otherwise
+                    res["C11"].evaluations += 1
+                    res["C11"].distinct.add((label, p, b))
+                    res["C11"].count("episode-length:%s:%s" % ("mask-respecting" if all_legal else "with-illegal-colour", "=n" if end == n else "<n" if end < n else ">n"))
+                    if end > n or (all_legal and end != n):
+                        kit.fail(["C11"], "episode length: not (exactly num_nodes under mask-respecting play, at most num_nodes otherwise)",
+                                 dict(cfg=label, op="horizon"), dict(b=b, p=p, steps=int(end), n=n, all_legal=all_legal, seed=kit.seed))
+                elif T >= n:
+                    res["C11"].evaluations += 1
+                    kit.fail(["C11"], "no LAST step within num_nodes steps", dict(cfg=label, op="horizon-none"), dict(b=b, p=p, steps=int(T), n=n, seed=kit.seed))
+        # ---- EVERY colour from visited states (reset, intermediate, terminal = stepping on after LAST)
+        lim = 40 if quick else 200
+        pick = visited if (n <= 7 or len(visited) <= lim) else [visited[int(i)] for i in kit.rng.choice(len(visited), lim, replace=False)]
+        sweep(env, n, pick, label, "sweep")
+        # ---- C10: fresh reset keys: well-formed graphs, dependence on the key; model generator = tril(k=-1)+transpose
+        nk = 24 if quick else 128
+        keys = jax.random.split(jax.random.PRNGKey(kit.seed + 4242), nk)
+        s0s, _ = jax.tree_util.tree_map(np.asarray, jax.jit(jax.vmap(env.reset))(keys))
+        seen = set()
+        for i in range(nk):
+            s0 = envkit.R.slice_tree(s0s, i)
+            submit_check(n, s0, dict(cfg=label, src="fresh-reset", key=i, p=None, b=i, t=0), legal_so_far=True, fresh=True)
+            seen.add(tuple(bl(s0.adj_matrix)))
+            adjm = np.asarray(s0.adj_matrix)
+            res["C10"].evaluations += 1
+            if int(adjm.sum()) != 2 * int(np.tril(adjm, -1).sum()):
+                kit.fail(["C10"], "degree sum != 2 * number of edges below the diagonal", dict(cfg=label, op="handshake"), dict(key=i, seed=kit.seed))
+        res["C10"].count("distinct-graphs/%d-keys:%s" % (nk, label), len(seen))
+        if n >= 5 and len(seen) < 2:
+            kit.fail(["C10"], "generator does not depend on the key", dict(cfg=label, op="key-dependence"), dict(keys=nk, distinct=len(seen), seed=kit.seed))
         for _ in range(4):
-            d = kit.rng.random((n, n)) < 0.5
+            d = kit.rng.random((n, n)) < kit.rng.choice([0.2, 0.5, 0.9])
             a = jnp.tril(jnp.asarray(d), k=-1)
             a = np.asarray(a + a.T)
-            calls.append(("gc_gen_io", [n] + [int(x) for x in d.reshape(-1)]))
-            metas.append(("gen", None, [int(x) for x in a.reshape(-1)], dict(cfg=cfg["label"])))
+            calls.append(("gc_gen_io", [n] + bl(d))); metas.append(("gen", dict(cfg=label), bl(a), None))
+
+    # ------------------------------------------------------------------ directly built graphs, played on the real env
+    def graphs(n):
+        full = ~np.eye(n, dtype=bool)
+        path = np.zeros((n, n), bool)
+        for i in range(n - 1):
+            path[i, i + 1] = path[i + 1, i] = True
+        star = np.zeros((n, n), bool)
+        star[0, 1:] = True
+        star[1:, 0] = True
+        return [("complete", full), ("empty", np.zeros((n, n), bool)), ("path", path), ("star", star)]
+
+    for n in ([1, 2, 3, 4, 5] if quick else [1, 2, 3, 4, 5, 8, 13]):
+        env = GraphColoring(RandomGenerator(num_nodes=n, edge_probability=0.5))
+        for gname, adj in graphs(n):
+            for pol in ("first", "last", "random", "slip"):
+                label = "built-%s-n%d" % (gname, n)
+                s = NS(adj, np.full(n, -1), 0, np.ones(n, bool))
+                t, ret, all_legal = 0, 0, True
+                while True:
+                    m = dict(cfg=label, src="built", pol=pol, p=None, b=0, t=t)
+                    submit_check(n, s, m, legal_so_far=all_legal)
+                    sweep(env, n, [(s, m)], label, "built-sweep")
+                    legal = [c for c in range(n) if s.action_mask[c]]
+                    illegal = [c for c in range(n) if not s.action_mask[c]]
+                    if pol == "slip" and illegal and t == n - 1:
+                        a = illegal[0]                                  # an illegal colour on the LAST node
+                    elif pol == "first" or not legal:
+                        a = legal[0] if legal else 0
+                    elif pol == "last":
+                        a = legal[-1]
+                    else:
+                        a = int(kit.rng.choice(legal))
+                    all_legal = all_legal and py_legal(s, a)
+                    (s2, ts2), = step_many(env, [(s, a)])
+                    submit_step(n, s, a, s2, ts2, dict(m, src="built-play"))
+                    ret += rew(ts2)
+                    s = NS(s2.adj_matrix, s2.colors, s2.current_node_index, s2.action_mask)
+                    t += 1
+                    if int(ts2.step_type) == 2 or t > n + 1:
+                        mf = dict(cfg=label, src="built-terminal", pol=pol, p=None, b=0, t=t)
+                        submit_check(n, s, mf, legal_so_far=all_legal)
+                        sweep(env, n, [(s, mf)], label, "built-sweep-after-last")
+                        complete = bool((s.colors >= 0).all())
+                        calls.append(("gc_spec_io", [n] + enc_state(n, s)))
+                        metas.append(("spec", dict(mf, of="final", n=n, ret=ret, all_legal=all_legal, complete=complete, steps=t,
+                                                   expect=(n if gname == "complete" else 1 if gname == "empty" else None) if pol == "first" else None), None, (s, None)))
+                        res["C11"].evaluations += 1
+                        res["C11"].distinct.add((label, pol))
+                        res["C11"].count("episode-length:%s:%s" % ("mask-respecting" if all_legal else "with-illegal-colour", "=n" if t == n else "<n" if t < n else ">n"))
+                        if t > n or (all_legal and t != n):
+                            kit.fail(["C11"], "episode length: not (exactly num_nodes under mask-respecting play, at most num_nodes otherwise)",
+                                     dict(cfg=label, op="horizon"), dict(pol=pol, steps=t, n=n, seed=kit.seed))
+                        break
+
+    # ------------------------------------------------------------------ compare
     outs = kit.model(calls)
-    for (entry, args), (kind, layout, exp, m), got in zip(calls, metas, outs):
-        if kind in ("step", "init"):
-            bad = envkit.diff_fields(layout, got, exp)
-            for pid in ("C09", "C04", "C05"):
-                kit.res[pid].evaluations += 1
-            kit.res["C09"].distinct.add((m["cfg"], m["p"], m["b"], m["t"]))
-            if kind == "step" and not m["legal"]:
-                kit.res["C05"].distinct.add((m["cfg"], m["p"], m["b"], m["t"]))
-                kit.res["C05"].count("illegal-action-steps")
+    for (entry, args), (kind, m, exp, extra), got in zip(calls, metas, outs):
+        if kind == "step":
+            n = m["n"]
+            bad = envkit.diff_fields(layout(n), got, exp)
+            key = (m["cfg"], m["src"], m.get("pol"), m.get("p"), m.get("b"), m["t"], m["action"])
+            res["C09"].evaluations += 1
+            res["C09"].distinct.add(key)
+            res["C09"].count("model:%s" % m["via"])
+            if m.get("origin") in ("terminal", "built-terminal"):
+                res["C09"].count("steps-after-LAST")
             if bad:
                 pids = {"C09"}
                 if "action_mask" in bad:
-                    pids.add("C04")
-                if kind == "step" and not m["legal"]:
+                    pids |= {"C04", "C12"}
+                if not m["legal"]:
                     pids.add("C05")
                 if "reward" in bad:
                     pids.add("C08")
-                kit.fail(sorted(pids), "model and implementation disagree on %s (fields %s)" % (kind, ",".join(bad)),
-                         dict(cfg=m["cfg"], op="corr-" + kind, fields=",".join(bad)), dict(m, model=got, impl=exp, seed=kit.seed))
+                if "colors" in bad:
+                    pids.add("C06")
+                if "step_type" in bad or "discount" in bad:
+                    pids |= {"C03", "C11"}
+                if "current_node_index" in bad:
+                    pids.add("C01")
+                kit.fail(sorted(pids), "model (%s) and implementation disagree on step (fields %s)" % (m["via"], ",".join(bad)),
+                         dict(cfg=m["cfg"], op="corr-step", fields=",".join(bad), model=m["via"]), dict(m, model=got, impl=exp, seed=kit.seed))
+            if extra is None:
+                continue
+            s, s2, ts2 = extra
+            a = m["action"]
+            lastt, r, disc = int(ts2.step_type) == 2, rew(ts2), int(round(float(ts2.discount)))
+            col2 = np.asarray(s2.colors)
+            complete = bool((col2 >= 0).all())
+            ncol = len(set(int(c) for c in col2 if c >= 0))
+            # ---- C04 judged by the environment's own reaction: punished (LAST with -n although not a completion worth -n)
+            res["C04"].evaluations += 1
+            res["C04"].distinct.add(key)
+            ambiguous = lastt and r == -n and complete and ncol == n          # a legal completion with n colours also pays -n
+            punished = lastt and r == -n and not ambiguous
+            res["C04"].count("mask:%d/env-%s" % (int(m["masked_in"]), "ambiguous(-n both ways)" if ambiguous else "punishes" if punished else "accepts"))
+            if m["masked_in"] != m["legal"] or (not ambiguous and m["masked_in"] == punished):
+                kit.fail(["C04"], "mask entry disagrees with the environment's reaction / the rule 'no neighbour has this colour'",
+                         dict(cfg=m["cfg"], op="mask-vs-reaction"), dict(m, punished=punished, reward=r, step_type=int(ts2.step_type), seed=kit.seed))
+            # ---- C03: LAST iff (complete or illegal); discount
+            res["C03"].evaluations += 1
+            if lastt != (complete or not m["legal"]) or disc != (0 if lastt else 1) or int(ts2.step_type) not in (1, 2):
+                kit.fail(["C03", "C11"], "step type / discount: not (LAST with discount 0 iff complete or illegal colour, else MID with discount 1)",
+                         dict(cfg=m["cfg"], op="last-iff"), dict(m, step_type=int(ts2.step_type), discount=disc, complete=complete, seed=kit.seed))
+            # ---- C01: the node index wraps to 0 after the last node
+            res["C01"].evaluations += 1
+            cur = int(s.current_node_index)
+            if cur == n - 1:
+                res["C01"].count("node-index-wrap-on-last-node")
+            if int(s2.current_node_index) != (0 if cur == n - 1 else cur + 1):
+                kit.fail(["C01", "C09"], "next node index is not cur+1 (0 after the last node)", dict(cfg=m["cfg"], op="node-index"), dict(m, got=int(s2.current_node_index), seed=kit.seed))
+            want = np.asarray(s.colors).copy()
+            if 0 <= cur < n:
+                want[cur] = a
+            if not m["legal"]:
+                # ---- C05: the documented effect (LAST, -n, discount 0) and what the code does to the state: the colour is written
+                res["C05"].evaluations += 1
+                res["C05"].distinct.add(key)
+                res["C05"].count("illegal-colour-steps")
+                if not (lastt and r == -n and disc == 0 and np.array_equal(col2, want) and np.array_equal(s2.adj_matrix, s.adj_matrix)):
+                    kit.fail(["C05"], "illegal colour: not (LAST, reward -num_nodes, discount 0, colour written, graph untouched)",
+                             dict(cfg=m["cfg"], op="illegal-effect"), dict(m, step_type=int(ts2.step_type), reward=r, colors_after=bl(col2), seed=kit.seed))
+            else:
+                res["C08"].evaluations += 1
+                wantr = -ncol if complete else 0
+                if r != wantr or not np.array_equal(col2, want):
+                    kit.fail(["C08", "C09"], "legal colour: reward is not (0 while nodes remain, -(colours in use) at completion) or colour not written",
+                             dict(cfg=m["cfg"], op="legal-effect"), dict(m, reward=r, expected=wantr, colors_after=bl(col2), seed=kit.seed))
+        elif kind == "obs":
+            n = m["n"]
+            res["C12"].evaluations += 1
+            res["C12"].distinct.add((m["cfg"], m["src"], m.get("pol"), m.get("p"), m.get("b"), m["t"], m["action"]))
+            bad = envkit.diff_fields(obs_layout(n), got, exp)
+            if bad:
+                kit.fail(["C12"], "observation differs from the model's observation builder (fields %s)" % ",".join(bad),
+                         dict(cfg=m["cfg"], op="corr-obs", fields=",".join(bad)), dict(m, model=got, impl=exp, seed=kit.seed))
+        elif kind == "init":
+            n = m["n"]
+            bad = envkit.diff_fields(layout(n), got, exp)
+            for pid in ("C09", "C10"):
+                res[pid].evaluations += 1
+            res["C10"].distinct.add((m["cfg"], m["p"], m["b"]))
+            if bad:
+                kit.fail(["C09", "C10"] + (["C04"] if "action_mask" in bad else []), "reset state is not init(graph) (fields %s)" % ",".join(bad),
+                         dict(cfg=m["cfg"], op="corr-init", fields=",".join(bad)), dict(m, model=got, impl=exp, seed=kit.seed))
+        elif kind == "proto":
+            res["C03"].evaluations += 1
+            res["C03"].distinct.add((m["cfg"], m["src"], m.get("pol"), m.get("p"), m.get("b"), m["t"], m.get("action")))
+            res["C03"].count("first" if m["first"] else "step")
+            if got != [1]:
+                kit.fail(["C03"], "timestep violates the FIRST / MID / LAST protocol (verified checker)", dict(cfg=m["cfg"], op="protocol"), dict(m, seed=kit.seed))
+        elif kind == "spec":
+            n = m["n"]
+            s = extra[0]
+            in_spec, used, used_code, complete = got
+            res["C01"].evaluations += 1
+            res["C01"].distinct.add((m["cfg"], m["src"], m.get("pol"), m.get("p"), m.get("b"), m["t"], m.get("action"), m["of"]))
+            res["C01"].count("state:%s" % m["of"])
+            if in_spec != 1:
+                kit.fail(["C01"], "emitted state/observation outside the declared spec (verified checker ranges_b)", dict(cfg=m["cfg"], op="ranges"),
+                         dict(m, colors=bl(s.colors), node=int(s.current_node_index), seed=kit.seed))
+            if used != used_code:
+                kit.fail(["C08", "C09"], "declarative colour count != unique/count_nonzero model on an implementation state", dict(cfg=m["cfg"], op="colour-count"), dict(m, seed=kit.seed))
+            if m["of"] == "final" and m["all_legal"] and m["complete"]:
+                # C08: return == -(colours in use), recomputed from the final state (verified count and Python set)
+                res["C08"].evaluations += 1
+                res["C08"].distinct.add((m["cfg"], m["src"], m.get("pol"), m.get("p"), m.get("b")))
+                pyn = len(set(int(c) for c in np.asarray(s.colors) if c >= 0))
+                res["C08"].count("completed-episodes")
+                if not (m["ret"] == -used == -pyn and complete == 1 and 1 <= used <= n):
+                    kit.fail(["C08"], "return != -(number of colours in use in the final state)", dict(cfg=m["cfg"], op="objective"),
+                             dict(m, colours=used, py_colours=pyn, colors=bl(s.colors), seed=kit.seed))
+                if m.get("expect") is not None and used != m["expect"]:
+                    kit.fail(["C08"], "greedy colouring of a complete/empty graph uses an unexpected number of colours", dict(cfg=m["cfg"], op="objective-known"),
+                             dict(m, colours=used, seed=kit.seed))
+            if m["of"] == "final" and m["all_legal"] and not m["complete"]:
+                kit.fail(["C06", "C11"], "episode ended under mask-respecting play with uncoloured nodes", dict(cfg=m["cfg"], op="complete"), dict(m, colors=bl(s.colors), seed=kit.seed))
         elif kind == "check":
-            kit.res["C04"].evaluations += 1
-            kit.res["C04"].distinct.add((m["cfg"], m["p"], m["b"], m["t"]))
+            res["C04"].evaluations += 1
+            res["C12"].evaluations += 1
+            res["C04"].count("mask-exact-checked:%s" % m["src"])
             if got[0] != 1:
-                kit.fail(["C04"], "action mask is not the set of legal colours (verified checker on implementation state)",
+                kit.fail(["C04", "C12"], "action mask is not the set of legal colours of the shown state (verified checker on implementation state)",
                          dict(cfg=m["cfg"], op="mask-exact"), dict(m, seed=kit.seed))
             if m["legal_so_far"]:
-                kit.res["C06"].evaluations += 1
-                kit.res["C06"].distinct.add((m["cfg"], m["b"], m["t"]))
+                res["C06"].evaluations += 1
+                res["C06"].distinct.add((m["cfg"], m["src"], m.get("pol"), m.get("p"), m["b"], m["t"]))
                 if got[1] != 1:
                     kit.fail(["C06"], "adjacent nodes share a colour under mask-respecting play", dict(cfg=m["cfg"], op="proper"), dict(m, seed=kit.seed))
-            kit.res["C10"].evaluations += 1
+            elif m["src"] in ("terminal", "built-terminal"):
+                # the terminal colouring after an illegal colour is improper (C05_GraphColoring_invalid_colour_is_written)
+                res["C05"].evaluations += 1
+                res["C05"].count("terminal-colouring-after-illegal-colour:%s" % ("improper" if got[1] != 1 else "proper"))
+                if got[1] == 1:
+                    kit.fail(["C05"], "terminal colouring after an illegal colour is proper: the colour was not written?", dict(cfg=m["cfg"], op="illegal-written"), dict(m, seed=kit.seed))
             if m["t"] == 0:
-                kit.res["C10"].distinct.add((m["cfg"], m["p"], m["b"]))
+                res["C10"].evaluations += 1
+                res["C10"].distinct.add((m["cfg"], m["src"], m.get("p"), m["b"]))
                 if got[2] != 1:
                     kit.fail(["C10"], "generated graph is not symmetric/loop-free", dict(cfg=m["cfg"], op="gen-wf"), dict(m, seed=kit.seed))
         elif kind == "gen":
-            kit.res["C10"].evaluations += 1
+            res["C10"].evaluations += 1
             if got != exp:
                 kit.fail(["C10"], "generator model disagrees with tril+transpose", dict(cfg=m["cfg"], op="corr-gen"), dict(m, seed=kit.seed))
     for pid in PROPS:
-        kit.res[pid].traces += len(calls)
-        if not kit.res[pid].samples:
-            kit.res[pid].samples.append(dict(env=NAME, example=metas[min(5, len(metas) - 1)][3]))
+        res[pid].traces += len(calls)
+        if not res[pid].samples:
+            res[pid].samples.append(dict(env=NAME, example={k: v for k, v in metas[min(5, len(metas) - 1)][1].items() if k != "state"}))
